@@ -17,13 +17,33 @@ def build():
                         const_strs(module_assign(an, "SAFE_REDIRECT_TARGETS"), "SAFE_REDIRECT_TARGETS"),
                         "core/analyzer.py SAFE_REDIRECT_TARGETS"))
     unk = module_assign(an, "_UNKNOWN_CWD")
-    if not (isinstance(unk, ast.Call) and getattr(unk.func, "id", None) == "Path" and len(unk.args) == 1
-            and isinstance(unk.args[0], ast.Constant) and isinstance(unk.args[0].value, str)):
-        raise TieBroken("_UNKNOWN_CWD: expected Path(<string literal>)")
-    out.append(f"(* core/analyzer.py _UNKNOWN_CWD *)\nDefinition UNKNOWN_CWD : str := {coq_str(unk.args[0].value)}.\n")
+    if not (isinstance(unk, ast.Call) and getattr(unk.func, "id", None) == "Path" and len(unk.args) == 1):
+        raise TieBroken("_UNKNOWN_CWD: expected Path(<string expression>)")
+
+    def str_expr(e):
+        """string literal, literal + expr, literal * int literal"""
+        if isinstance(e, ast.Constant) and isinstance(e.value, str):
+            return e.value
+        if isinstance(e, ast.BinOp) and isinstance(e.op, ast.Add):
+            return str_expr(e.left) + str_expr(e.right)
+        if isinstance(e, ast.BinOp) and isinstance(e.op, ast.Mult) and isinstance(e.right, ast.Constant) and type(e.right.value) is int \
+                and 0 <= e.right.value <= 4096:
+            return str_expr(e.left) * e.right.value
+        raise TieBroken("_UNKNOWN_CWD: expected a string built from literals with + and * <int>")
+    unk_text = str_expr(unk.args[0])
+    if not unk_text.startswith("/") or ".." in unk_text:
+        raise TieBroken("_UNKNOWN_CWD: expected an absolute path without '..'")
+    out.append(f"(* core/analyzer.py _UNKNOWN_CWD *)\nDefinition UNKNOWN_CWD : str := {coq_str(unk_text)}.\n")
+    comps = unk_text.split("/")
+    if len(comps) < 3 or comps[0] != "" or not comps[1] or not comps[2]:
+        raise TieBroken("_UNKNOWN_CWD: expected at least two path components")
+    out.append("(* the first two components of _UNKNOWN_CWD: every path below it counts as \"unknown directory\" *)\n"
+               f"Definition UNKNOWN_ROOT : str := {coq_str('/' + comps[1] + '/' + comps[2])}.\n")
     chd = in_tuples(func(an, "_changes_directory"), "changes_directory")
     out.append(coq_strs("CHDIR_COMMANDS", pick(chd, ["cd", "pushd"], "directory-changing commands"),
                         "_changes_directory: commands that change the shell's directory"))
+    out.append(coq_strs("CHDIR_WRAPPERS", pick(chd, ["command", "builtin"], "builtin-running prefixes"),
+                        "_changes_directory: prefixes that run a builtin in the current shell"))
     out.append(coq_strs("CHDIR_OPAQUE_KINDS", pick(chd, ["subshell", "cmdsub"], "kinds run in their own process"),
                         "_changes_directory: node kinds whose directory changes do not reach the current shell"))
     red = in_tuples(func(an, "_analyze_redirects"), "redirect ops")
